@@ -8,6 +8,7 @@ import (
 	"go/types"
 	"sort"
 	"strings"
+	"sync"
 	"time"
 
 	"golang.org/x/tools/go/ssa"
@@ -55,11 +56,28 @@ type Val struct {
 	Tup   []Val
 	Bk    *Backed
 	Store string // KV store handle: ghost name
+	It    int    // iterator handle (index into State.iters), 0 = none
+}
+
+// IterState is the ghost state of a store iterator: it ranges, in key order, over the keys of a
+// snapshot of the store that lie under a prefix.
+type IterState struct {
+	Store    string
+	Snapshot string
+	Prefix   string
+	Cur      string // current key (meaningful when Valid)
+	Valid    string // SMT Bool
+	Reverse  bool
+	Limit    int // 0 = unlimited (paginated iterators with page 1: limit items)
+	Consumed int
+	Closed   bool
 }
 
 // ---------------------------------------------------------------- state
 
 type State struct {
+	iters  map[int]*IterState
+	visits map[*ssa.BasicBlock]int
 	cells  map[*Cell]string
 	ghost  map[string]string
 	pc     []string
@@ -82,6 +100,19 @@ func (s *State) clone() *State {
 	}
 	n.pc = append([]string(nil), s.pc...)
 	n.defers = append([]*ssa.Defer(nil), s.defers...)
+	if s.iters != nil {
+		n.iters = make(map[int]*IterState, len(s.iters))
+		for k, v := range s.iters {
+			c := *v
+			n.iters[k] = &c
+		}
+	}
+	if s.visits != nil {
+		n.visits = make(map[*ssa.BasicBlock]int, len(s.visits))
+		for k, v := range s.visits {
+			n.visits[k] = v
+		}
+	}
 	return n
 }
 
@@ -229,6 +260,9 @@ func (ex *Exec) pure(v Val, t types.Type, st *State) string {
 	}
 	if v.Store != "" {
 		return ex.u.Fresh("storehandle", "Iface")
+	}
+	if v.It != 0 {
+		return ex.u.Fresh("iterhandle", "Iface")
 	}
 	return ex.u.Fresh("opaque", ex.u.SortOf(t))
 }
@@ -565,7 +599,18 @@ func (ex *Exec) execBlock(fr *Frame, st *State, blk, prev *ssa.BasicBlock, outs 
 	// loop header handling
 	if ord, isHeader := fr.loops.headers[blk]; isHeader {
 		if !fr.top {
-			unsupported("loop in inlined function %s", fr.fn)
+			// loops of inlined callees are unrolled; the bound is a resource limit, not an approximation:
+			// a path that needs more iterations makes the function fall outside the subset
+			if st.visits == nil {
+				st.visits = map[*ssa.BasicBlock]int{}
+			}
+			st.visits[blk]++
+			if st.visits[blk] > 4 {
+				unsupported("loop in inlined function %s needs more than 4 iterations", fr.fn)
+			}
+			ex.evalPhis(fr, st, blk, prev)
+			ex.execInstrs(fr, st, blk, firstNonPhi(blk), outs)
+			return
 		}
 		if st.cut[blk] {
 			// back edge: evaluate phis with the back-edge values, check invariant, stop
@@ -1136,6 +1181,7 @@ type opaqueKey struct {
 }
 
 var opaqueStore = map[opaqueKey]Val{}
+var opaqueMu sync.Mutex
 
 func pathKey(p []PathEl) string {
 	var b strings.Builder
@@ -1153,14 +1199,18 @@ func (ex *Exec) storeOpaque(p *Ptr, v Val, st *State) {
 	if p.Cell == nil {
 		unsupported("store of pointer through unknown pointer")
 	}
+	opaqueMu.Lock()
 	opaqueStore[opaqueKey{p.Cell, pathKey(p.Path)}] = v
+	opaqueMu.Unlock()
 }
 
 func (ex *Exec) loadOpaque(p *Ptr) (Val, bool) {
 	if p.Cell == nil {
 		return Val{}, false
 	}
+	opaqueMu.Lock()
 	v, ok := opaqueStore[opaqueKey{p.Cell, pathKey(p.Path)}]
+	opaqueMu.Unlock()
 	return v, ok
 }
 
@@ -1720,6 +1770,11 @@ func (ex *Exec) deferredCall(fr *Frame, st *State, d *ssa.Defer) {
 		}
 	} else if com.IsInvoke() {
 		name = com.Method.FullName()
+		if com.Method.Name() == "Close" {
+			if v, ok := fr.regs[com.Value]; ok && v.It != 0 && st.iters != nil && st.iters[v.It] != nil {
+				st.iters[v.It].Closed = true
+			}
+		}
 	} else {
 		unsupported("deferred dynamic call")
 	}
